@@ -975,10 +975,15 @@ public:
 				return;
 			}
 			Node* rootNode = nullptr;
-			if (pvIsOrdered(*this, dstTreeSet))
-				rootNode = pvMergeFast(*this, dstTreeSet);
-			else if (pvIsOrdered(dstTreeSet, *this))
+			if (pvIsOrdered(dstTreeSet, *this))
+			{
 				rootNode = pvMergeFast(dstTreeSet, *this);
+			}
+			else if (GetTreeTraits().IsLess(ItemTraits::GetKey(*std::prev(GetEnd())),
+				ItemTraits::GetKey(*dstTreeSet.GetBegin())))
+			{
+				rootNode = pvMergeFast(*this, dstTreeSet);
+			}
 			if (rootNode != nullptr)
 			{
 				dstTreeSet.mCount += mCount;
